@@ -235,6 +235,17 @@ def LOG(t):
     hit = Pure.lookup(t)
     if hit is not None and hit[0] == "EXP":
         return hit[1][0]
+    if z3.is_app(t) and t.decl().kind() in (z3.Z3_OP_MUL, z3.Z3_OP_DIV):
+        # ln of a product / quotient is split into the sum / difference of the logs of its factors (all factors positive:
+        # the repo takes logarithms of positive quantities built from positive quantities -- stated assumption)
+        ch = t.children()
+        if not any(is_num(f) and num_value(f) <= 0 for f in ch):
+            if t.decl().kind() == z3.Z3_OP_DIV:
+                return LOG(ch[0]) - LOG(ch[1])
+            r = LOG(ch[0])
+            for f in ch[1:]:
+                r = r + LOG(f)
+            return r
     new = ("LOG", t.get_id()) not in Pure.tab
     v = Pure.app("LOG", [t])
     if new:
